@@ -949,19 +949,21 @@ theorem mu_zero_free {s : State} (h : CInv s) (ho : ownedAll s) (hz : mu s = 0) 
     themselves (no outside help) can run every call to completion, after which
     no key is held. -/
 theorem drain : ∀ (m : Nat) (s : State), CInv s → ownedAll s → mu s ≤ m →
-    ∃ ops, (∀ op ∈ ops, internal op = true) ∧ mu (Sm.run step s ops) = 0 := by
+    ∃ ops, (∀ op ∈ ops, internal op = true) ∧ mu (Sm.run step s ops) = 0 ∧
+      CInv (Sm.run step s ops) ∧ ownedAll (Sm.run step s ops) := by
   intro m
   induction m with
   | zero =>
-    intro s _ _ hm
-    exact ⟨[], by simp, by simpa using Nat.le_zero.1 hm⟩
+    intro s h ho hm
+    exact ⟨[], by simp, by simpa using Nat.le_zero.1 hm, h, ho⟩
   | succ m ih =>
     intro s h ho hm
     by_cases hz : mu s = 0
-    · exact ⟨[], by simp, by simpa using hz⟩
+    · exact ⟨[], by simp, by simpa using hz, h, ho⟩
     · obtain ⟨op, hint, hlt⟩ := progress h ho (Nat.pos_of_ne_zero hz)
-      obtain ⟨ops, hall, hfin⟩ := ih (step s op).1 (cinv_step h op) (ownedAll_internal h ho op hint) (by omega)
-      refine ⟨op :: ops, ?_, by simpa using hfin⟩
+      obtain ⟨ops, hall, hfin, hci, hoi⟩ :=
+        ih (step s op).1 (cinv_step h op) (ownedAll_internal h ho op hint) (by omega)
+      refine ⟨op :: ops, ?_, by simpa using hfin, by simpa using hci, by simpa using hoi⟩
       intro o hoo
       rcases List.mem_cons.1 hoo with rfl | hm'
       · exact hint
